@@ -10,34 +10,139 @@
 use std::sync::atomic::{AtomicU32, Ordering};
 use std::task::{RawWaker, RawWakerVTable, Waker};
 
+/// ALL mutable environment state lives in this ONE static.  (Kani 0.68 aliases small zero-initialised
+/// `static mut`s with constants of the same bytes — e.g. a 1-byte zero static with the `false` const-generic
+/// argument of core's `atomic_load::<T, false>` — so separate scalar statics are unsafe to write.)
+pub(crate) struct Env {
+    pub magic: u64,
+    /// io_uring_params as 30 u32 words (120 bytes)
+    pub setup_in: [u32; 30],
+    /// munmap of something not live / wrong length
+    pub munmap_bad: u32,
+    pub wakes: [u32; NWAKERS],
+    pub waker_clones: u32,
+    pub waker_drops: u32,
+    pub lock_addr: usize,
+    pub lock_kind: u32,
+    pub lock_fired: u32,
+    pub lock_count: u32,
+    pub env_head: *const AtomicU32,
+    pub env_tail: *const AtomicU32,
+    pub env_len: u32,
+    pub env_new_head: u32,
+    pub env_new_tail: u32,
+    pub evlog: [(u8, u64, u64); NEV],
+    pub evn: usize,
+    pub enters: [EnterCall; NENTER],
+    pub enter_n: usize,
+    pub enter_ret: [i32; NENTER],
+    pub enter_errno: [i32; NENTER],
+    pub enter_consume: [u32; NENTER],
+    pub enter_publish: [u32; NENTER],
+    pub k_sq_head: *const AtomicU32,
+    pub k_sq_tail: *const AtomicU32,
+    pub k_cq_tail: *const AtomicU32,
+    pub enter_saw_sq_tail: [u32; NENTER],
+    pub errno: i32,
+    pub regs: [RegisterCall; NREG],
+    pub reg_n: usize,
+    pub reg_ret: [i32; NREG],
+    pub reg_errno: [i32; NREG],
+    pub reg_copy: usize,
+    pub setup_n: usize,
+    pub setup_entries: u32,
+    pub setup_out: [u32; 30],
+    pub setup_ret: i32,
+    pub setup_errno: i32,
+    pub maps: [(usize, usize, bool); NMAP],
+    pub mmap_n: usize,
+    pub mmap_args: [(usize, i32, i32, i32, i64); NMAP],
+    pub mmap_ret: [usize; NMAP],
+    pub mmap_errno: i32,
+    pub munmap_n: u32,
+    pub madvise_n: usize,
+    pub madvise_ret: [i32; NMAP],
+    pub madvise_args: [(usize, usize, i32); NMAP],
+    pub closed: [i32; NFD],
+    pub close_n: usize,
+}
+pub(crate) static mut E: Env = Env {
+    magic: 0xA10A_10A1_5EED_F00D,
+    setup_in: [0; 30],
+    munmap_bad: 0,
+    wakes: [0; NWAKERS],
+    waker_clones: 0,
+    waker_drops: 0,
+    lock_addr: 0,
+    lock_kind: 0,
+    lock_fired: 0,
+    lock_count: 0,
+    env_head: std::ptr::null(),
+    env_tail: std::ptr::null(),
+    env_len: 0,
+    env_new_head: 0,
+    env_new_tail: 0,
+    evlog: [(0, 0, 0); NEV],
+    evn: 0,
+    enters: [EnterCall { fd: 0, to_submit: 0, min_complete: 0, flags: 0, has_ts: false, ts_sec: 0, ts_nsec: 0, size: 0 }; NENTER],
+    enter_n: 0,
+    enter_ret: [0; NENTER],
+    enter_errno: [0; NENTER],
+    enter_consume: [0; NENTER],
+    enter_publish: [0; NENTER],
+    k_sq_head: std::ptr::null(),
+    k_sq_tail: std::ptr::null(),
+    k_cq_tail: std::ptr::null(),
+    enter_saw_sq_tail: [0; NENTER],
+    errno: 0,
+    regs: [RegisterCall { fd: 0, opcode: 0, arg: 0, nr_args: 0, words: [0; 8] }; NREG],
+    reg_n: 0,
+    reg_ret: [0; NREG],
+    reg_errno: [0; NREG],
+    reg_copy: 0,
+    setup_n: 0,
+    setup_entries: 0,
+    setup_out: [0; 30],
+    setup_ret: 0,
+    setup_errno: 0,
+    maps: [(0, 0, false); NMAP],
+    mmap_n: 0,
+    mmap_args: [(0, 0, 0, 0, 0); NMAP],
+    mmap_ret: [0; NMAP],
+    mmap_errno: 12,
+    munmap_n: 0,
+    madvise_n: 0,
+    madvise_ret: [0; NMAP],
+    madvise_args: [(0, 0, 0); NMAP],
+    closed: [0; NFD],
+    close_n: 0,
+};
+
 // ---------------------------------------------------------------- wakers
 
 pub(crate) const NWAKERS: usize = 6;
-pub(crate) static mut WAKES: [u32; NWAKERS] = [0; NWAKERS];
-pub(crate) static mut WAKER_CLONES: u32 = 0;
-pub(crate) static mut WAKER_DROPS: u32 = 0;
 
 unsafe fn w_clone(p: *const ()) -> RawWaker {
-    unsafe { WAKER_CLONES += 1 };
+    unsafe { E.waker_clones += 1 };
     RawWaker::new(p, &VTABLE)
 }
 unsafe fn w_wake(p: *const ()) {
     let id = p as usize;
     unsafe {
-        WAKES[id % NWAKERS] += 1;
-        WAKER_DROPS += 1;
+        E.wakes[id % NWAKERS] += 1;
+        E.waker_drops += 1;
     }
 }
 unsafe fn w_wake_by_ref(p: *const ()) {
     let id = p as usize;
-    unsafe { WAKES[id % NWAKERS] += 1 };
+    unsafe { E.wakes[id % NWAKERS] += 1 };
 }
 unsafe fn w_drop(_p: *const ()) {
-    unsafe { WAKER_DROPS += 1 };
+    unsafe { E.waker_drops += 1 };
 }
 static VTABLE: RawWakerVTable = RawWakerVTable::new(w_clone, w_wake, w_wake_by_ref, w_drop);
 
-/// A waker whose identity is `id` (< NWAKERS); waking bumps `WAKES[id]`.
+/// A waker whose identity is `id` (< NWAKERS); waking bumps `E.wakes[id]`.
 pub(crate) fn waker(id: usize) -> Waker {
     unsafe { Waker::from_raw(RawWaker::new(id as *const (), &VTABLE)) }
 }
@@ -45,13 +150,13 @@ pub(crate) fn waker_id(w: &Waker) -> usize {
     w.data() as usize
 }
 pub(crate) fn wakes(id: usize) -> u32 {
-    unsafe { WAKES[id] }
+    unsafe { E.wakes[id] }
 }
 pub(crate) fn total_wakes() -> u32 {
     let mut n = 0;
     let mut i = 0;
     while i < NWAKERS {
-        n += unsafe { WAKES[i] };
+        n += unsafe { E.wakes[i] };
         i += 1;
     }
     n
@@ -60,33 +165,24 @@ pub(crate) fn total_wakes() -> u32 {
 // ---------------------------------------------------------------- lock hook (rely/guarantee)
 
 /// Address of the Mutex at which the environment acts, and what it does.
-pub(crate) static mut LOCK_ADDR: usize = 0;
-pub(crate) static mut LOCK_KIND: u8 = 0;
-pub(crate) static mut LOCK_FIRED: u32 = 0;
-pub(crate) static mut LOCK_COUNT: u32 = 0;
 /// Ring words the interference may change.
-pub(crate) static mut ENV_HEAD: *const AtomicU32 = std::ptr::null();
-pub(crate) static mut ENV_TAIL: *const AtomicU32 = std::ptr::null();
-pub(crate) static mut ENV_LEN: u32 = 0;
-pub(crate) static mut ENV_NEW_HEAD: u32 = 0;
-pub(crate) static mut ENV_NEW_TAIL: u32 = 0;
 
-pub(crate) const LK_NONE: u8 = 0;
+pub(crate) const LK_NONE: u32 = 0;
 /// Other submitters appended entries and/or the kernel consumed some: head/tail are
-/// replaced by the (harness-chosen, invariant-respecting) values ENV_NEW_HEAD/ENV_NEW_TAIL.
-pub(crate) const LK_RING_WORDS: u8 = 1;
+/// replaced by the (harness-chosen, invariant-respecting) values E.env_new_head/E.env_new_tail.
+pub(crate) const LK_RING_WORDS: u32 = 1;
 
 /// Called (through the injected cfg(kani) line) at the top of `crate::lock`.
 pub(crate) fn on_lock(addr: usize) {
     unsafe {
-        LOCK_COUNT += 1;
-        if LOCK_KIND != LK_NONE && addr == LOCK_ADDR {
-            if LOCK_KIND == LK_RING_WORDS {
-                (*ENV_HEAD).store(ENV_NEW_HEAD, Ordering::SeqCst);
-                (*ENV_TAIL).store(ENV_NEW_TAIL, Ordering::SeqCst);
+        E.lock_count += 1;
+        if E.lock_kind != LK_NONE && addr == E.lock_addr {
+            if E.lock_kind == LK_RING_WORDS {
+                (*E.env_head).store(E.env_new_head, Ordering::SeqCst);
+                (*E.env_tail).store(E.env_new_tail, Ordering::SeqCst);
             }
-            LOCK_FIRED += 1;
-            LOCK_KIND = LK_NONE;
+            E.lock_fired += 1;
+            E.lock_kind = LK_NONE;
         }
     }
 }
@@ -106,22 +202,20 @@ pub(crate) const EV_MADVISE: u8 = 10;
 
 pub(crate) const NEV: usize = 16;
 /// Ordered log of environment-visible events (syscalls), with two payload words each.
-pub(crate) static mut EVLOG: [(u8, u64, u64); NEV] = [(0, 0, 0); NEV];
-pub(crate) static mut EVN: usize = 0;
 
 pub(crate) fn ev(kind: u8, a: u64, b: u64) {
     unsafe {
-        if EVN < NEV {
-            EVLOG[EVN] = (kind, a, b);
+        if E.evn < NEV {
+            E.evlog[E.evn] = (kind, a, b);
         }
-        EVN += 1;
+        E.evn += 1;
     }
 }
 pub(crate) fn evn() -> usize {
-    unsafe { EVN }
+    unsafe { E.evn }
 }
 pub(crate) fn evat(i: usize) -> (u8, u64, u64) {
-    unsafe { EVLOG[i] }
+    unsafe { E.evlog[i] }
 }
 
 #[derive(Copy, Clone)]
@@ -136,41 +230,25 @@ pub(crate) struct EnterCall {
     pub size: usize,
 }
 pub(crate) const NENTER: usize = 4;
-pub(crate) static mut ENTERS: [EnterCall; NENTER] = [EnterCall { fd: 0, to_submit: 0, min_complete: 0, flags: 0, has_ts: false, ts_sec: 0, ts_nsec: 0, size: 0 }; NENTER];
-pub(crate) static mut ENTER_N: usize = 0;
-/// What each successive enter call returns (-1 => errno from ENTER_ERRNO).
-pub(crate) static mut ENTER_RET: [i32; NENTER] = [0; NENTER];
-pub(crate) static mut ENTER_ERRNO: [i32; NENTER] = [0; NENTER];
+/// What each successive enter call returns (-1 => errno from E.enter_errno).
 /// How many SQEs the kernel consumes in each enter (advance of the SQ head), and how many
 /// CQEs it publishes (advance of the CQ tail; the slots were written by the harness).
-pub(crate) static mut ENTER_CONSUME: [u32; NENTER] = [0; NENTER];
-pub(crate) static mut ENTER_PUBLISH: [u32; NENTER] = [0; NENTER];
-pub(crate) static mut K_SQ_HEAD: *const AtomicU32 = std::ptr::null();
-pub(crate) static mut K_SQ_TAIL: *const AtomicU32 = std::ptr::null();
-pub(crate) static mut K_CQ_TAIL: *const AtomicU32 = std::ptr::null();
 /// Value of the SQ tail / CQ head the kernel saw at each enter.
-pub(crate) static mut ENTER_SAW_SQ_TAIL: [u32; NENTER] = [0; NENTER];
 
-pub(crate) static mut ERRNO: i32 = 0;
 
+/// Sets errno.  CBMC models `__errno_location` (one global), std's `io::Error::last_os_error` reads the
+/// same global under Kani; natively this is the real thread-local errno.  No stub is involved.
 pub(crate) fn set_errno(e: i32) {
-    unsafe { ERRNO = e };
-    set_real_errno(e);
-}
-/// Only meaningful in native playback; stubbed by `noop_set_real_errno` under verification.
-pub(crate) fn set_real_errno(e: i32) {
-    unsafe { *libc::__errno_location() = e };
-}
-pub(crate) fn noop_set_real_errno(_e: i32) {}
-/// Stub for `std::io::Error::last_os_error` under verification.
-pub(crate) fn model_last_os_error() -> std::io::Error {
-    std::io::Error::from_raw_os_error(unsafe { ERRNO })
+    unsafe {
+        E.errno = e;
+        *libc::__errno_location() = e;
+    }
 }
 
 pub(crate) unsafe fn sys_enter2(fd: i32, to_submit: u32, min_complete: u32, flags: u32, arg: *const libc::c_void, size: usize) -> i32 {
     unsafe {
-        let i = ENTER_N;
-        ENTER_N += 1;
+        let i = E.enter_n;
+        E.enter_n += 1;
         let mut call = EnterCall { fd, to_submit, min_complete, flags, has_ts: false, ts_sec: 0, ts_nsec: 0, size };
         if !arg.is_null() {
             let a = &*(arg as *const [u64; 3]); // io_uring_getevents_arg: sigmask, (sigmask_sz,min_wait_usec), ts
@@ -184,23 +262,23 @@ pub(crate) unsafe fn sys_enter2(fd: i32, to_submit: u32, min_complete: u32, flag
         }
         ev(EV_ENTER, to_submit as u64, ((flags as u64) << 32) | min_complete as u64);
         if i < NENTER {
-            ENTERS[i] = call;
-            if !K_SQ_TAIL.is_null() {
-                ENTER_SAW_SQ_TAIL[i] = (*K_SQ_TAIL).load(Ordering::SeqCst);
+            E.enters[i] = call;
+            if !E.k_sq_tail.is_null() {
+                E.enter_saw_sq_tail[i] = (*E.k_sq_tail).load(Ordering::SeqCst);
             }
-            if ENTER_RET[i] == -1 {
-                set_errno(ENTER_ERRNO[i]);
+            if E.enter_ret[i] == -1 {
+                set_errno(E.enter_errno[i]);
                 return -1;
             }
-            if !K_SQ_HEAD.is_null() && ENTER_CONSUME[i] != 0 {
-                let h = (*K_SQ_HEAD).load(Ordering::SeqCst);
-                (*K_SQ_HEAD).store(h.wrapping_add(ENTER_CONSUME[i]), Ordering::SeqCst);
+            if !E.k_sq_head.is_null() && E.enter_consume[i] != 0 {
+                let h = (*E.k_sq_head).load(Ordering::SeqCst);
+                (*E.k_sq_head).store(h.wrapping_add(E.enter_consume[i]), Ordering::SeqCst);
             }
-            if !K_CQ_TAIL.is_null() && ENTER_PUBLISH[i] != 0 {
-                let t = (*K_CQ_TAIL).load(Ordering::SeqCst);
-                (*K_CQ_TAIL).store(t.wrapping_add(ENTER_PUBLISH[i]), Ordering::SeqCst);
+            if !E.k_cq_tail.is_null() && E.enter_publish[i] != 0 {
+                let t = (*E.k_cq_tail).load(Ordering::SeqCst);
+                (*E.k_cq_tail).store(t.wrapping_add(E.enter_publish[i]), Ordering::SeqCst);
             }
-            return ENTER_RET[i];
+            return E.enter_ret[i];
         }
         0
     }
@@ -216,22 +294,17 @@ pub(crate) struct RegisterCall {
     pub words: [u64; 8],
 }
 pub(crate) const NREG: usize = 4;
-pub(crate) static mut REGS: [RegisterCall; NREG] = [RegisterCall { fd: 0, opcode: 0, arg: 0, nr_args: 0, words: [0; 8] }; NREG];
-pub(crate) static mut REG_N: usize = 0;
-pub(crate) static mut REG_RET: [i32; NREG] = [0; NREG];
-pub(crate) static mut REG_ERRNO: [i32; NREG] = [0; NREG];
 /// How many bytes behind `arg` to copy into `words` (0 = none), chosen by the harness.
-pub(crate) static mut REG_COPY: usize = 0;
 
 pub(crate) unsafe fn sys_register(fd: i32, opcode: u32, arg: *const libc::c_void, nr_args: u32) -> i32 {
     unsafe {
-        let i = REG_N;
-        REG_N += 1;
+        let i = E.reg_n;
+        E.reg_n += 1;
         ev(EV_REGISTER, opcode as u64, nr_args as u64);
         if i < NREG {
             let mut words = [0u64; 8];
-            if !arg.is_null() && REG_COPY != 0 {
-                let n = REG_COPY / 8;
+            if !arg.is_null() && E.reg_copy != 0 {
+                let n = E.reg_copy / 8;
                 let src = arg as *const u64;
                 let mut k = 0;
                 while k < 8 {
@@ -241,12 +314,12 @@ pub(crate) unsafe fn sys_register(fd: i32, opcode: u32, arg: *const libc::c_void
                     k += 1;
                 }
             }
-            REGS[i] = RegisterCall { fd, opcode, arg: arg as usize, nr_args, words };
-            if REG_RET[i] == -1 {
-                set_errno(REG_ERRNO[i]);
+            E.regs[i] = RegisterCall { fd, opcode, arg: arg as usize, nr_args, words };
+            if E.reg_ret[i] == -1 {
+                set_errno(E.reg_errno[i]);
                 return -1;
             }
-            return REG_RET[i];
+            return E.reg_ret[i];
         }
         0
     }
@@ -254,34 +327,28 @@ pub(crate) unsafe fn sys_register(fd: i32, opcode: u32, arg: *const libc::c_void
 
 /// io_uring_setup: records the parameter block it was given, then lets the harness-provided
 /// "kernel answer" overwrite the output fields.
-pub(crate) static mut SETUP_N: usize = 0;
-pub(crate) static mut SETUP_ENTRIES: u32 = 0;
-pub(crate) static mut SETUP_IN: [u32; 30] = [0; 30]; // io_uring_params as 30 u32 words (120 bytes)
-pub(crate) static mut SETUP_OUT: [u32; 30] = [0; 30];
-pub(crate) static mut SETUP_RET: i32 = 0;
-pub(crate) static mut SETUP_ERRNO: i32 = 0;
 
 pub(crate) unsafe fn sys_setup(entries: u32, p: *mut libc::c_void) -> i32 {
     unsafe {
-        SETUP_N += 1;
-        SETUP_ENTRIES = entries;
+        E.setup_n += 1;
+        E.setup_entries = entries;
         ev(EV_SETUP, entries as u64, 0);
         let w = p as *mut u32;
         let mut k = 0;
         while k < 30 {
-            SETUP_IN[k] = w.add(k).read();
+            E.setup_in[k] = w.add(k).read();
             k += 1;
         }
-        if SETUP_RET == -1 {
-            set_errno(SETUP_ERRNO);
+        if E.setup_ret == -1 {
+            set_errno(E.setup_errno);
             return -1;
         }
         let mut k = 0;
         while k < 30 {
-            w.add(k).write(SETUP_OUT[k]);
+            w.add(k).write(E.setup_out[k]);
             k += 1;
         }
-        SETUP_RET
+        E.setup_ret
     }
 }
 
@@ -289,55 +356,43 @@ pub(crate) unsafe fn sys_setup(entries: u32, p: *mut libc::c_void) -> i32 {
 
 pub(crate) const NMAP: usize = 4;
 /// (addr, len, live)
-pub(crate) static mut MAPS: [(usize, usize, bool); NMAP] = [(0, 0, false); NMAP];
-pub(crate) static mut MMAP_N: usize = 0;
-pub(crate) static mut MMAP_ARGS: [(usize, i32, i32, i32, i64); NMAP] = [(0, 0, 0, 0, 0); NMAP];
-/// Per call: address the harness wants mmap to return (0 => MAP_FAILED with MMAP_ERRNO).
-pub(crate) static mut MMAP_RET: [usize; NMAP] = [0; NMAP];
-pub(crate) static mut MMAP_ERRNO: i32 = 12;
-pub(crate) static mut MUNMAP_BAD: u32 = 0; // munmap of something not live / wrong length
-pub(crate) static mut MUNMAP_N: u32 = 0;
-pub(crate) static mut MADVISE_N: usize = 0;
-pub(crate) static mut MADVISE_RET: [i32; NMAP] = [0; NMAP];
-pub(crate) static mut MADVISE_ARGS: [(usize, usize, i32); NMAP] = [(0, 0, 0); NMAP];
+/// Per call: address the harness wants mmap to return (0 => MAP_FAILED with E.mmap_errno).
 pub(crate) const NFD: usize = 4;
-pub(crate) static mut CLOSED: [i32; NFD] = [0; NFD];
-pub(crate) static mut CLOSE_N: usize = 0;
 
 pub(crate) unsafe fn mmap(addr: *mut libc::c_void, len: usize, prot: i32, flags: i32, fd: i32, off: i64) -> *mut libc::c_void {
     unsafe {
-        let i = MMAP_N;
-        MMAP_N += 1;
+        let i = E.mmap_n;
+        E.mmap_n += 1;
         ev(EV_MMAP, len as u64, off as u64);
         if i >= NMAP {
-            set_errno(MMAP_ERRNO);
+            set_errno(E.mmap_errno);
             return libc::MAP_FAILED;
         }
-        MMAP_ARGS[i] = (len, prot, flags, fd, off);
-        if MMAP_RET[i] == 0 {
-            set_errno(MMAP_ERRNO);
+        E.mmap_args[i] = (len, prot, flags, fd, off);
+        if E.mmap_ret[i] == 0 {
+            set_errno(E.mmap_errno);
             return libc::MAP_FAILED;
         }
-        MAPS[i] = (MMAP_RET[i], len, true);
-        MMAP_RET[i] as *mut libc::c_void
+        E.maps[i] = (E.mmap_ret[i], len, true);
+        E.mmap_ret[i] as *mut libc::c_void
     }
 }
 pub(crate) unsafe fn munmap(addr: *mut libc::c_void, len: usize) -> i32 {
     unsafe {
-        MUNMAP_N += 1;
+        E.munmap_n += 1;
         ev(EV_MUNMAP, addr as u64, len as u64);
         let mut k = 0;
         let mut found = false;
         while k < NMAP {
-            if MAPS[k].2 && MAPS[k].0 == addr as usize && MAPS[k].1 == len {
-                MAPS[k].2 = false;
+            if E.maps[k].2 && E.maps[k].0 == addr as usize && E.maps[k].1 == len {
+                E.maps[k].2 = false;
                 found = true;
                 break;
             }
             k += 1;
         }
         if !found {
-            MUNMAP_BAD += 1;
+            E.munmap_bad += 1;
             set_errno(22);
             return -1;
         }
@@ -346,12 +401,12 @@ pub(crate) unsafe fn munmap(addr: *mut libc::c_void, len: usize) -> i32 {
 }
 pub(crate) unsafe fn madvise(addr: *mut libc::c_void, len: usize, advice: i32) -> i32 {
     unsafe {
-        let i = MADVISE_N;
-        MADVISE_N += 1;
+        let i = E.madvise_n;
+        E.madvise_n += 1;
         ev(EV_MADVISE, addr as u64, len as u64);
         if i < NMAP {
-            MADVISE_ARGS[i] = (addr as usize, len, advice);
-            if MADVISE_RET[i] != 0 {
+            E.madvise_args[i] = (addr as usize, len, advice);
+            if E.madvise_ret[i] != 0 {
                 set_errno(12);
                 return -1;
             }
@@ -362,10 +417,10 @@ pub(crate) unsafe fn madvise(addr: *mut libc::c_void, len: usize, advice: i32) -
 pub(crate) unsafe fn close(fd: i32) -> i32 {
     unsafe {
         ev(EV_CLOSE, fd as u64, 0);
-        if CLOSE_N < NFD {
-            CLOSED[CLOSE_N] = fd;
+        if E.close_n < NFD {
+            E.closed[E.close_n] = fd;
         }
-        CLOSE_N += 1;
+        E.close_n += 1;
         0
     }
 }
@@ -373,7 +428,7 @@ pub(crate) fn live_maps() -> usize {
     let mut n = 0;
     let mut k = 0;
     while k < NMAP {
-        if unsafe { MAPS[k].2 } {
+        if unsafe { E.maps[k].2 } {
             n += 1;
         }
         k += 1;
